@@ -86,6 +86,9 @@ INSTR_CASES = [
     ("crc-instr", [("instr", "CRC", {"X": "1"})], 0x84),
     ("reboot", [("instr", "REBOOT", {})], None),
     ("no-marker", [], 0x84),
+    # a header / instruction named like the parser's internal firmware-data marker is an ordinary unknown name
+    ("load-header", [("header", "load", "abc")], 0x84),
+    ("load-instr", [("instr", "load", {})], 0x84),
 ] + [("selif-" + p, [("instr", "SELECT_IF", {"PROTOCOL": p})], t)
      for p in ("BRP", "BRP-SER", "BRP-CCID", "BRP-TCP", "BRP-OSDP", "ISO7816-4", "*", "SPI") for t in (0x70, 0x84)]
 
